@@ -364,6 +364,21 @@ def hist_batch(res, rng, stats, terms, info, rterms, rinfo):
     rinfo.append(dict(base, breaks=breaks, transformed_ranges=rr, result=vals))
 
 
+def compare_retry(name, requires, terms, shard):
+    """coq_compare, repeated when a shard died without a Coq error message (killed / out of memory / timeout):
+    that is an infrastructure failure, not a disagreement."""
+    def shard_died(bad, log):
+        b = set(bad)
+        whole = any(all(i in b for i in range(k, min(k + shard, len(terms)))) for k in range(0, len(terms), shard))
+        return whole and 'Error' not in log
+    bad, log = common.coq_compare(name, requires, terms, shard=shard)
+    tries = 0
+    while bad and shard_died(bad, log) and tries < 2:
+        tries += 1
+        bad, log = common.coq_compare(name, requires, terms, shard=shard)
+    return bad, log
+
+
 def load_corpus():
     import glob
     import json
@@ -411,7 +426,7 @@ def run(res):
     for c in load_corpus():          # hand-picked edge cases and minimised earlier failures run first
         batch(res, rng, c['diagram'], c['R_goal'], stats, terms, info, cyc=[tuple(x) for x in c['cycles']])
     stats['corpus_batches'] = len(load_corpus())
-    n_batch = 200 if quick else 2400
+    n_batch = 160 if quick else 2000
     for it in range(n_batch):
         wild = it % 10 == 7
         d = ms.gen_fkm(rng) if it % 2 == 0 else ms.gen_five(rng, wild)
@@ -424,15 +439,15 @@ def run(res):
             mono_batch(res, rng, d, Rg, stats)
     for it in range(12 if quick else 120):
         multi_batch(res, rng, 'fkm' if it % 2 == 0 else 'five', stats, terms, info)
-    for it in range(60 if quick else 600):
+    for it in range(40 if quick else 500):
         hist_batch(res, rng, stats, terms, info, rterms, rinfo)
 
     res.cov['wall_impl_s'] = round(time.time() - t0, 1)
     t0 = time.time()
-    bad, log = common.coq_compare('C12', ms.REQ, terms, shard=400)
+    bad, log = compare_retry('C12', ms.REQ, terms, 400)
     res.oblige('correspondence model = implementation on %d transformed cycles (amplitude and mean, three interfaces)' % len(terms),
                not bad, 'disagreeing cases: %s\n%s' % ([info[i] for i in bad[:4]], log[-1500:]))
-    rbad, rlog = common.coq_compare('C12r', ms.REQ, rterms, shard=60)
+    rbad, rlog = compare_retry('C12r', ms.REQ, rterms, 60)
     res.oblige('correspondence re-binning model = implementation on %d histograms' % len(rterms),
                not rbad, 'disagreeing cases: %s\n%s' % ([rinfo[i] for i in rbad[:2]], rlog[-1500:]))
     res.oblige('result intervals of the matrix interface start at 0, increase strictly and end at the largest transformed range '
